@@ -57,7 +57,7 @@ def shape_eq(a, b):
 class C10(C.PipelineCheck):
     id = 'C10'
     title = 'Zod schemas describe the same structure as the plain TypeScript declarations'
-    required_covers = ('field', 'param', 'enum', 'names', 'serializable')
+    required_covers = ('field', 'param', 'enum', 'names', 'serializable', 'mapped')
 
     def bounds(self, tier):
         q = tier != 'thorough'
@@ -82,6 +82,10 @@ class C10(C.PipelineCheck):
             yield ('types/%d' % (i // (2 if q else 6)), dict(kind='types', chains=chains[i:i + (2 if q else 6)]))
         for n in (1, 2, 4):
             yield ('enum/%d' % n, dict(kind='enum', n=n))
+        # a foreign type covered by a type mapping: both modes must describe the mapping's target at fields and parameters alike
+        mchains = [(), ('vec',), ('opt',), ('hmap-v',)] + ([] if q else [('tup2-1',), ('vec', 'opt'), ('result',)])
+        for i in range(0, len(mchains), 2):
+            yield ('mapped/%d' % (i // 2), dict(kind='types', chains=mchains[i:i + 2], mapped=True))
 
     def mutant_scenarios(self, tier, name):
         for j in list(self.scenarios('quick'))[:3] + [('enum/2', dict(kind='enum', n=2))]:
@@ -172,6 +176,11 @@ class C10(C.PipelineCheck):
                     if len(w) == n:
                         e.assume(z_not(V.str_eq(t, Str(w))))
                 ty = S.rust_text(skeleton(chain, ('leaf', 't')))
+                if p.get('mapped'):
+                    # the leaf is not a project type: the configuration maps it to a primitive
+                    e.assume(z_and(cs[0] >= 65, cs[0] <= 90))
+                    mapped_to = ('string', 'number')[e.choose(2)]
+                    e.cover('mapped')
                 if chain and chain[0] == 'ref':
                     ty_param = ty
                 else:
@@ -183,7 +192,7 @@ class C10(C.PipelineCheck):
                 # role of the chain: a set or a Result constructor anywhere in it decides the outcome (the two recorded
                 # defect classes); deeper chains share the key of the depth-1 chain that fails for the same reason
                 role = next(((c,) for c in chain if c in ('hset', 'bset', 'result', 'result1')), chain)
-                tag = 'types:%s' % erase(skeleton(role, ('leaf', 't')))
+                tag = '%s:%s' % ('mapped' if p.get('mapped') else 'types', erase(skeleton(role, ('leaf', 't'))))
             else:
                 v = C.sym_type_ident('v', p['n'])
                 holes['v'] = v
@@ -193,7 +202,10 @@ class C10(C.PipelineCheck):
                 e.cover('enum')
             outs = {}
             for mode in ('none', 'zod'):
-                proj = PL.Project({'src/main.rs': src}, holes, {'validation_library': mode})
+                cfg = {'validation_library': mode}
+                if p.get('mapped'):
+                    cfg['type_mappings'] = {holes['t']: mapped_to}
+                proj = PL.Project({'src/main.rs': src}, holes, cfg)
                 run = PL.run_model(I, proj)
                 if run.result.var != 'Ok':
                     return (proj, 'error')
